@@ -11,13 +11,20 @@ Tie to the code (models: coq/theories/Components.v + Config.v, theorems: coq/pro
              with defaults / model-specification values / keyword arguments over a pool of shared key paths (clashes,
              interior-vs-leaf conflicts, a manager's own key), then set up.  Observed: construction raised?, setup
              raised?, the set-up log (every manager's and every probe's set-up call), and the configuration as a probe
-             sees it in its setup: reads of a pool of key paths and modification attempts (update / item assignment at
-             several places), with outcomes.
+             sees it in its setup: reads of a pool of key paths by EVERY probe, modification attempts by the first probe
+             to be set up (update / item assignment / deletion at several places) and again from outside after setup,
+             with outcomes.  Components reach the context through the constructor, through add_components (nested lists),
+             or through the `components` block of the model specification (parser plugin -> props.c20.SpecProbe).  When
+             add_components refuses a batch on an existing context, setup is called all the same and what stayed
+             registered is observed (no roll-back: a prefix of the pre-order list).
   stream `cfg` : a stand-alone LayeredConfigTree driven by an operation sequence (the library model Config.v).
 Direct oracle (python, independent of the Coq model): every manager is set up once and before every probe; every node
 of the forest exactly once, after its parent; duplicate names and a manager's name are refused; a key path reads as
 the keyword argument, else the model-specification value, else the one default; two defaults for one key are refused;
-every modification attempt during setup raises and changes nothing.
+every update / assignment attempt during or after setup raises and changes nothing.  Deletion (`del cfg[k]`, delattr) on
+the frozen configuration goes through - open finding F-AA (layered_config_tree does not guard __delitem__/__delattr__):
+modelled faithfully (Config.delete_key, C20_frozen_deletion_refuted), reported as KNOWN-FINDING when it is the only thing
+wrong with a case (finding_of_ctx).
 """
 import json
 import random
@@ -40,13 +47,15 @@ CLAIM = {
     "note": "Trusted: the transcription of ComponentManager / engine __init__ / setup and of layered_config_tree (library, "
             "validated by the `cfg` and `ctx` correspondences on the explored cases only); the harness's wrappers "
             "(LayeredConfigTree.update, ComponentManager.add_managers, each manager's setup - recording only) and the "
-            "private attribute LayeredConfigTree._layers (read defensively). Not covered: components supplied through a "
-            "model-specification `components` block (parser plugin), ~/vivarium.yaml user layer, `del cfg[key]` (the "
-            "library does not guard deletion by freeze).",
+            "private attribute LayeredConfigTree._layers (read defensively). Open finding F-AA: deletion on the frozen "
+            "configuration succeeds (library); C20_frozen covers update / assignment only, C20_frozen_deletion_refuted is the "
+            "witness. Not covered: the ~/vivarium.yaml user layer; the configuration's content after a REFUSED update of a "
+            "partly frozen tree (library partial effects).",
 }
 RULE = ("ctx: forests of 0-14 probe components (depth <= 4, fan-out <= 4, nested lists / tuples at top level and inside "
-        "sub_components, duplicates planted at any depth, manager names) supplied through the constructor or "
-        "add_components, x defaults / model-specification values / keyword arguments drawn from a pool of 9 key paths "
+        "sub_components, duplicates planted at any depth, manager names) supplied through the constructor, "
+        "add_components or the model specification's components block, x 1-3 modification attempts during setup and 0-3 "
+        "after it (a quarter of the cases with deletions: open finding F-AA), x defaults / model-specification values / keyword arguments drawn from a pool of 9 key paths "
         "(shared prefixes, leaf-vs-interior conflicts, population.population_size owned by a manager). cfg: 1-5 layers, "
         "3-14 operations (update at a path / at the root with nested dicts, item assignment, freeze of a sub-tree or "
         "the root, reads, metadata) incl. unknown layers and duplicates. distinct = distinct case JSON; trivial = empty "
@@ -177,9 +186,23 @@ def make_probe_class():
         def setup(self, builder):
             sh = self.shared
             sh["log"].append(self._pname)
-            sh["seen"].append(observe_cfg(builder.configuration, sh["paths"], sh["attempts"]))
+            cfg = builder.configuration
+            sh["cfg"] = cfg
+            sh["events"].append(("reads", self._pname, [read_path(cfg, p) for p in sh["paths"]]))
+            if not sh["attempted"]:              # the FIRST probe to be set up tries to modify the configuration
+                sh["attempted"] = True
+                run_attempts(cfg, sh["paths"], sh["attempts"], sh["events"], "setup")
 
     return CfgProbe
+
+
+_SPEC = {}       # what SpecProbe('<i>') builds: filled by run_ctx before a context with a `components` block is created
+
+
+def SpecProbe(index):
+    """Named in a model specification's `components` block as props.c20.SpecProbe('<i>'): the parser plugin imports this
+    module by path and calls it with the string argument; it returns the i-th top-level probe of the current case."""
+    return build_objects([_SPEC["items"][int(index)]], _SPEC["Probe"], _SPEC["shared"])[0]
 
 
 def read_path(cfg, path):
@@ -221,25 +244,32 @@ def classify_cfg_error(e):
     return 8
 
 
-def observe_cfg(cfg, paths, attempts):
-    """reads, then each modification attempt followed by the reads again; returns a JSON-able record"""
-    out = {"reads": [read_path(cfg, p) for p in paths], "attempts": []}
+def run_attempts(cfg, paths, attempts, events, when):
+    """each modification attempt (update / item assignment / deletion) followed by the reads; appended to `events`"""
     for at in attempts:
         kind, where = at["kind"], at["at"]
         tree = subtree(cfg, where)
+        gone = None
         if tree is None:
             code = 9
         else:
             try:
                 if kind == "update":
                     tree.update(at["data"], layer=at.get("layer"), source=at.get("source"))
-                else:
+                elif kind == "setitem":
                     tree[at["key"]] = at["value"]
+                else:
+                    before = at["key"] in tree
+                    if kind == "del":
+                        del tree[at["key"]]
+                    else:
+                        delattr(tree, at["key"])
+                    gone = before and at["key"] not in tree
                 code = 0
             except Exception as e:  # noqa: BLE001
                 code = classify_cfg_error(e)
-        out["attempts"].append({"code": code, "reads": [read_path(cfg, p) for p in paths]})
-    return out
+        events.append(("attempt", when, at, code, gone))
+        events.append(("reads", when, [read_path(cfg, p) for p in paths]))
 
 
 # ----------------------------------------------------------------------------------------------------------------
@@ -252,7 +282,7 @@ def ensure_table():
     from vivarium.framework.engine import SimulationContext
     boot.reset_contexts()
     Probe = make_probe_class()
-    shared = {"log": [], "seen": [], "paths": [], "attempts": []}
+    shared = {"log": [], "events": [], "paths": [], "attempts": [], "attempted": True}
     probe = Probe("layer_probe", {"comp_marker_key": 3}, [], shared)
     ms = LayeredConfigTree({"configuration": {"spec_marker_key": 1}})       # built BEFORE recording starts
     with Recording() as rec:
@@ -437,11 +467,19 @@ def gen_forest(rng):
     return items
 
 
-def gen_attempts(rng):
+DEL_KEYS = {(): ["alpha", "beta", "gamma", "population", "time", "nope"], ("alpha",): ["x", "y", "deep", "nope"],
+            ("population",): ["population_size"], ("beta",): ["x"]}
+
+
+def gen_attempts(rng, p_del):
     out = []
     for _ in range(rng.randint(1, 3)):
         where = rng.choice([[], [], ["alpha"], ["beta"], ["population"], ["alpha", "deep"]])
-        if rng.random() < 0.65:
+        r = rng.random()
+        if r < p_del:                                   # open finding F-AA: deletion is not refused
+            where = rng.choice([[], [], ["alpha"], ["population"], ["beta"]])
+            out.append({"kind": rng.choice(["del", "del", "delattr"]), "at": where, "key": rng.choice(DEL_KEYS[tuple(where)])})
+        elif r < p_del + (1 - p_del) * 0.65:
             out.append({"kind": "update", "at": where, "data": gen_cfgdict(rng, 0.25) or {"new_key": 1},
                         "layer": rng.choice([None, "override", "base", "component_configs"]), "source": rng.choice([None, "evil"])})
         else:
@@ -451,9 +489,11 @@ def gen_attempts(rng):
 
 
 def gen_ctx(rng):
+    p_del = rng.choice([0.0, 0.0, 0.0, 0.4])
     return {"forest": gen_forest(rng), "spec": gen_cfgdict(rng, rng.choice([0.0, 0.15, 0.3])),
-            "over": gen_cfgdict(rng, rng.choice([0.0, 0.15, 0.3])), "via_constructor": rng.random() < 0.5,
-            "spec_as": rng.choice(["tree", "none_if_empty"]), "attempts": gen_attempts(rng)}
+            "over": gen_cfgdict(rng, rng.choice([0.0, 0.15, 0.3])), "via": rng.choice(["ctor", "add", "add", "spec"]),
+            "spec_as": rng.choice(["tree", "none_if_empty"]), "attempts": gen_attempts(rng, p_del),
+            "outside": gen_attempts(rng, p_del) if rng.random() < 0.5 else []}
 
 
 def flat_names(items):
@@ -503,21 +543,30 @@ def build_objects(items, Probe, shared):
     return out
 
 
-def ccops(paths, rec, attempts):
-    """one probe's observation -> list (list cop): reads; then per attempt [attempt; reads]"""
-    def reads(rs):
-        return [f"CGet {cpath(p)} {cpair(cz(c), cz(val_id(v) if c == 0 else 0))}" for p, (c, v) in zip(paths, rs)]
-    seqs = [reads(rec["reads"])]
-    for at, res in zip(attempts, rec["attempts"]):
+def ccops(paths, events):
+    """the events of one context (reads of every probe, the first probe's attempts, the attempts from outside after
+    setup) as ONE sequential cop list"""
+    out = []
+    for ev in events:
+        if ev[0] == "reads":
+            out += [f"CGet {cpath(p)} {cpair(cz(c), cz(val_id(v) if c == 0 else 0))}" for p, (c, v) in zip(paths, ev[2])]
+            continue
+        _, _, at, code, _ = ev
         if at["kind"] == "update":
             layer = at.get("layer")
-            op = (f"CUpdate {cpath(at['at'])} {cdict(at['data'])} {copt(None if layer is None else LAYERS(layer), cz)} "
-                  f"{cz(src_id(at.get('source')))} {cz(res['code'])}")
+            out.append(f"CUpdate {cpath(at['at'])} {cdict(at['data'])} {copt(None if layer is None else LAYERS(layer), cz)} "
+                       f"{cz(src_id(at.get('source')))} {cz(code)}")
+        elif at["kind"] == "setitem":
+            out.append(f"CSetItem {cpath(at['at'])} {cz(KEYS(at['key']))} {cdata(at['value'])} {cz(code)}")
         else:
-            op = f"CSetItem {cpath(at['at'])} {cz(KEYS(at['key']))} {cdata(at['value'])} {cz(res['code'])}"
-        seqs.append([op])
-        seqs.append(reads(res["reads"]))
-    return clist(clist(s) for s in seqs)
+            out.append(f"CDel {cpath(at['at'])} {cz(KEYS(at['key']))} {cz(code)}")
+    return clist([clist(out)])
+
+
+def finding_of_ctx(case, res):
+    """F-AA: the ONLY thing wrong with the case is that a deletion on the frozen configuration went through"""
+    classes = (res.obs or {}).get("failure_classes") or []
+    return "F-AA" if classes and set(classes) == {"F-AA"} else None
 
 
 def run_ctx(case):
@@ -526,25 +575,35 @@ def run_ctx(case):
     t = ensure_table()
     boot.reset_contexts()
     Probe = make_probe_class()
-    shared = {"log": [], "seen": [], "paths": PATHS, "attempts": case["attempts"]}
-    objs = build_objects(case["forest"], Probe, shared)
+    shared = {"log": [], "events": [], "paths": PATHS, "attempts": case["attempts"], "attempted": False, "cfg": None}
     top_has_group = any("g" in it for it in case["forest"])
-    via_ctor = case["via_constructor"] and not top_has_group
+    via = case.get("via") or ("ctor" if case.get("via_constructor") else "add")
+    if top_has_group or (via == "spec" and not case["forest"]):
+        via = "add"            # a nested list at top level can only be handed to add_components
+    objs = build_objects(case["forest"], Probe, shared) if via != "spec" else []
     spec = case["spec"]
-    ms = None if (case["spec_as"] == "none_if_empty" and not spec) else LayeredConfigTree({"configuration": spec})
+    spec_tree = {"configuration": spec}
+    if via == "spec":          # the components block of the model specification -> ComponentConfigurationParser
+        _SPEC.update(items=case["forest"], Probe=Probe, shared=shared)
+        spec_tree["components"] = {"props": {"c20": [f"SpecProbe('{i}')" for i in range(len(case["forest"]))]}}
+    ms = None if (case["spec_as"] == "none_if_empty" and not spec and via != "spec") else LayeredConfigTree(spec_tree)
     built, setup_ok, build_err, setup_err = True, None, None, None
-    sim = None
+    sim, add_refused = None, False
     with Recording() as rec:
         try:
-            sim = SimulationContext(model_specification=ms, components=objs if via_ctor else [], configuration=case["over"],
+            sim = SimulationContext(model_specification=ms, components=objs if via == "ctor" else [], configuration=case["over"],
                                     logging_verbosity=0)
-            if not via_ctor:
-                sim.add_components(objs)
+            if via == "add":
+                try:
+                    sim.add_components(objs)
+                except Exception as e:  # noqa: BLE001
+                    built, build_err, add_refused = False, e, True
         except Exception as e:  # noqa: BLE001
             built, build_err = False, e
     boot.quiet_logging()
     mgr_objs = list(rec.managers)
-    if built:
+    partial = None
+    if built or add_refused:
         for m in mgr_objs:                       # record every manager's set-up call (instance-level, calls through)
             def wrap(m=m, orig=m.setup):
                 def setup(builder, *a, **k):
@@ -555,19 +614,23 @@ def run_ctx(case):
                 m.setup = wrap()
             except Exception:
                 pass
+        if add_refused:
+            shared["attempted"] = True           # no modification attempts in this (partially filled) context
         try:
             sim.setup()
             setup_ok = True
         except Exception as e:  # noqa: BLE001
             setup_ok, setup_err = False, e
         boot.quiet_logging()
+        if add_refused:
+            partial = (bool(setup_ok), list(shared["log"]))
+        elif setup_ok and case.get("outside") and shared["cfg"] is not None:
+            run_attempts(shared["cfg"], PATHS, case["outside"], shared["events"], "after_setup")
     # ---------------- direct oracle ----------------
-    ok, msg = True, ""
+    failures = []        # (class, message)
 
-    def fail(m):
-        nonlocal ok, msg
-        if ok:
-            ok, msg = False, m
+    def fail(m, cls="other"):
+        failures.append((cls, m))
     flat, edges = flat_names(case["forest"])
     names = [n for n, _ in flat]
     mnames = [n for n, _ in t["managers"]]
@@ -595,8 +658,18 @@ def run_ctx(case):
     if not (dup or clash or struct or both_user or like_manager) and built and not setup_ok:
         fail(f"setup of a legitimate context was refused ({setup_err!r}): components {names}")
     log = shared["log"]
+    nm = len(mnames)
+    if partial is not None and partial[0]:
+        # a refused batch is not rolled back: whatever stayed registered is set up - once, managers first, parent first
+        clog = log[nm:]
+        if sorted(log[:nm]) != sorted(mnames):
+            fail(f"after a refused add_components: the first {nm} set-up calls are {log[:nm]}, not the managers")
+        if len(set(clog)) != len(clog) or any(c not in names for c in clog):
+            fail(f"after a refused add_components the components set up are {clog} (supplied {names})")
+        for p, c in edges:
+            if names.count(c) == 1 and c in clog and (p not in clog or clog.index(p) > clog.index(c)):
+                fail(f"after a refused add_components {c} was set up without / before its parent {p}: {clog}")
     if built and setup_ok:
-        nm = len(mnames)
         if sorted(log[:nm]) != sorted(mnames):
             fail(f"the first {nm} set-up calls are {log[:nm]}, not the managers {mnames}")
         clog = log[nm:]
@@ -605,15 +678,13 @@ def run_ctx(case):
         for p, c in edges:
             if p in clog and c in clog and clog.index(p) > clog.index(c):
                 fail(f"{c} was set up before its parent {p}: {clog}")
-        seen = shared["seen"]
-        if any(s != seen[0] for s in seen):
-            fail("two components saw different configurations during setup")
-        if seen:
-            first = seen[0]
-            for path, (code, v) in zip(PATHS, first["reads"]):
+        events = shared["events"]
+        reads = [ev for ev in events if ev[0] == "reads"]
+        if reads:
+            first = reads[0][2]
+            for path, (code, v) in zip(PATHS, first):
                 tp = tuple(path)
                 over_l, spec_l = dict(leaves(case["over"])), dict(leaves(case["spec"]))
-                want = None
                 if tp in over_l:
                     want = over_l[tp]
                 elif tp in spec_l:
@@ -625,24 +696,45 @@ def run_ctx(case):
                 if code != 0 or json.dumps(v, default=str) != json.dumps(want, default=str):
                     fail(f"{'.'.join(path)} reads {(code, v)} during setup; keyword argument {over_l.get(tp, '-')}, "
                          f"model specification {spec_l.get(tp, '-')}, defaults by {default_leaves.get(tp, [])}")
-            for at, res in zip(case["attempts"], first["attempts"]):
-                if res["code"] == 0 and not (at["kind"] == "update" and not at["data"]):
-                    fail(f"a component modified the configuration during setup: {at}")
-                if res["reads"] != first["reads"]:
-                    fail(f"the configuration changed during setup after {at}")
+            # FROZEN: nothing a component (or anybody, later) does changes what the configuration reads
+            prev, cause = first, None
+            for ev in events[1:]:
+                if ev[0] == "attempt":
+                    _, when, at, code, gone = ev
+                    cause = (when, at)
+                    if at["kind"] in ("del", "delattr"):
+                        if gone:
+                            fail(f"{at['kind']} of {'.'.join(at['at'] + [at['key']])} went through ({when}) although the "
+                                 f"configuration is frozen", "F-AA")
+                    elif code == 0 and not (at["kind"] == "update" and not at["data"]):
+                        fail(f"the frozen configuration accepted {at} ({when})")
+                else:
+                    if ev[2] != prev:
+                        is_del = cause is not None and cause[1]["kind"] in ("del", "delattr")
+                        fail(f"the configuration reads differently after {cause} (setup had begun)", "F-AA" if is_del else "other")
+                    prev = ev[2]
+    ok = not failures
+    msg = failures[0][1] if failures else ""
+    others = [m for c, m in failures if c != "F-AA"]
+    if others:
+        msg = others[0]
     # ---------------- Coq ----------------
-    cops = ccops(PATHS, shared["seen"][0], case["attempts"]) if (built and setup_ok and shared["seen"]) else "[]"
-    coq = ("{| x_forest := %s; x_spec := %s; x_over := %s; x_built := %s; x_setup := %s; x_log := %s; x_cops := %s |}" % (
-        clist(citem(it) for it in case["forest"]), cdict(spec), cdict(case["over"]), cbool(built), cbool(bool(setup_ok)),
-        czlist(NAMES(n) for n in log) if (built and setup_ok) else "[]", cops))
+    cops = ccops(PATHS, shared["events"]) if (built and setup_ok and shared["events"]) else "[]"
+    cpartial = "None" if partial is None else "(Some (%s, %s))" % (cbool(partial[0]), czlist(NAMES(n) for n in partial[1]) if partial[0] else "[]")
+    coq = ("{| x_forest := %s; x_spec := %s; x_over := %s; x_built := %s; x_setup := %s; x_log := %s; x_partial := %s; x_cops := %s |}" % (
+        clist(citem(it) for it in case["forest"]), cdict(spec), cdict(case["over"]), cbool(built), cbool(bool(setup_ok) and built),
+        czlist(NAMES(n) for n in log) if (built and setup_ok) else "[]", cpartial, cops))
     exact = (built and setup_ok and log[len(mnames):] == names)
+    ndel = sum(1 for a in case["attempts"] + case.get("outside", []) if a["kind"] in ("del", "delattr"))
     tags = ("built" if built else "build_rejected:" + type(build_err).__name__,
-            ("setup_ok" if setup_ok else "setup_rejected:" + type(setup_err).__name__) if built else "no_setup",
-            f"n{min(len(names), 14) // 3 * 3}", "dup" if dup else "nodup", "clash" if clash else "noclash",
-            "ctor" if via_ctor else "add_components") + ((("preorder_exact" if exact else "other_valid_order"),) if built and setup_ok else ())
+            ("setup_ok" if setup_ok else "setup_rejected:" + type(setup_err).__name__) if built else
+            ("no_setup" if partial is None else ("partial_setup_ok" if partial[0] else "partial_setup_rejected")),
+            f"n{min(len(names), 14) // 3 * 3}", "dup" if dup else "nodup", "clash" if clash else "noclash", "via_" + via,
+            "deletions" if ndel else "no_deletions") + ((("preorder_exact" if exact else "other_valid_order"),) if built and setup_ok else ())
     nontrivial = bool(names) or bool(spec) or bool(case["over"])
     return Result(ok=ok, msg=msg, coq=coq, key=json.dumps(case, sort_keys=True) if nontrivial else None,
-                  obs={"built": built, "setup": setup_ok, "log": log[len(mnames):][:20], "error": repr(build_err or setup_err)[:200]},
+                  obs={"built": built, "setup": setup_ok, "log": log[len(mnames):][:20], "error": repr(build_err or setup_err)[:200],
+                       "failure_classes": sorted({c for c, _ in failures})},
                   tags=tags)
 
 
@@ -654,20 +746,20 @@ def corpus_ctx():
         # deep nesting with lists / tuples everywhere, defaults below user values
         {"forest": [leaf("a", {"alpha": {"x": 1}}, [leaf("b", None, [leaf("c", {"beta": 5})]), {"g": [leaf("d")], "tuple": True}]),
                     {"g": [leaf("e", {"alpha": {"y": 2}}), {"g": [leaf("f", None, [leaf("g")])], "tuple": False}], "tuple": False}],
-         "spec": {"alpha": {"x": 10}}, "over": {"beta": 50}, "via_constructor": False, "spec_as": "tree", "attempts": att},
+         "spec": {"alpha": {"x": 10}}, "over": {"beta": 50}, "via": "add", "spec_as": "tree", "attempts": att, "outside": att},
         # duplicate deep in the tree
         {"forest": [leaf("a", None, [leaf("b", None, [leaf("c")])]), leaf("d", None, [{"g": [leaf("c")], "tuple": False}])],
-         "spec": {}, "over": {}, "via_constructor": True, "spec_as": "tree", "attempts": att},
+         "spec": {}, "over": {}, "via": "ctor", "spec_as": "tree", "attempts": att, "outside": []},
         # a component named like a manager
-        {"forest": [leaf("a"), leaf("population_manager")], "spec": {}, "over": {}, "via_constructor": True, "spec_as": "tree", "attempts": att},
+        {"forest": [leaf("a"), leaf("population_manager")], "spec": {}, "over": {}, "via": "ctor", "spec_as": "tree", "attempts": att, "outside": []},
         # two defaults for one key; a default for a manager's key; leaf-vs-interior
-        {"forest": [leaf("a", {"gamma": 1}), leaf("b", None, [leaf("c", {"gamma": 1})])], "spec": {}, "over": {}, "via_constructor": True,
-         "spec_as": "tree", "attempts": att},
-        {"forest": [leaf("a", {"population": {"population_size": 2}})], "spec": {}, "over": {}, "via_constructor": True, "spec_as": "tree", "attempts": att},
-        {"forest": [leaf("a", {"alpha": 5}), leaf("b", {"alpha": {"x": 1}})], "spec": {}, "over": {}, "via_constructor": True, "spec_as": "tree", "attempts": att},
+        {"forest": [leaf("a", {"gamma": 1}), leaf("b", None, [leaf("c", {"gamma": 1})])], "spec": {}, "over": {}, "via": "ctor",
+         "spec_as": "tree", "attempts": att, "outside": []},
+        {"forest": [leaf("a", {"population": {"population_size": 2}})], "spec": {}, "over": {}, "via": "ctor", "spec_as": "tree", "attempts": att, "outside": []},
+        {"forest": [leaf("a", {"alpha": 5}), leaf("b", {"alpha": {"x": 1}})], "spec": {}, "over": {}, "via": "ctor", "spec_as": "tree", "attempts": att, "outside": []},
         # user values for a manager's key win; all three layers on one key
         {"forest": [leaf("a", {"alpha": {"x": 1}})], "spec": {"alpha": {"x": 2}, "population": {"population_size": 2}},
-         "over": {"alpha": {"x": 3}, "population": {"population_size": 3}}, "via_constructor": True, "spec_as": "tree", "attempts": att},
+         "over": {"alpha": {"x": 3}, "population": {"population_size": 3}}, "via": "ctor", "spec_as": "tree", "attempts": att, "outside": []},
     ]
 
 
@@ -816,7 +908,7 @@ def streams(tier):
     return [
         Stream(name="ctx", imports="From Viv Require Import Common Config Components.\nFrom VivGen Require Import ConfigLayers_C20.",
                check="(check_ctx cfg_layers l_mgr l_comp l_spec l_over mgr_table)", gen=gen_ctx, run=run_ctx,
-               n_quick=500, n_thorough=1500, corpus=corpus_ctx,
+               n_quick=500, n_thorough=1500, corpus=corpus_ctx, finding_of=finding_of_ctx,
                doc="real contexts built from generated component forests and configuration layerings"),
         Stream(name="cfg", imports="From Viv Require Import Common Config.", check="check_cfg", gen=gen_cfg, run=run_cfg,
                n_quick=500, n_thorough=3000, corpus=corpus_cfg, doc="stand-alone LayeredConfigTree operation sequences"),
